@@ -46,18 +46,10 @@ impl RowIdIndex {
                 RawIndexChunk::NonOverlapping(chunk) => {
                     final_chunks.push(chunk);
                 }
-                RawIndexChunk::Overlapping(range, overlapping_chunks) => {
-                    debug_assert_eq!(
-                        range.end() - range.start() + 1,
-                        overlapping_chunks
-                            .iter()
-                            .map(|(_, (seq, _))| seq.len() as u64)
-                            .sum::<u64>(),
-                        "Wrong range for {:?}, chunks: {:?}",
-                        range,
-                        overlapping_chunks,
-                    );
-                    // Merge overlapping chunks.
+                RawIndexChunk::Overlapping(_range, overlapping_chunks) => {
+                    // Merge overlapping chunks.  Their ranges may overlap without the ids
+                    // covering the whole range: ids that were deleted from one fragment leave
+                    // holes, and an updated row's id lives on in another fragment.
                     let merged_chunk = merge_overlapping_chunks(overlapping_chunks)?;
                     final_chunks.push(merged_chunk);
                 }
